@@ -143,7 +143,7 @@ def sha512 (m : Bytes) : Bytes :=
 
 def sha384 (m : Bytes) : Bytes :=
   ((sha512With #[0xcbbb9d5dc1059ed8,0x629a292a367cd507,0x9159015a3070dd17,0x152fecd8f70e5939,
-    0x67332667ffc00b31,0x8eb44a8768581511,0xdb0c2e0d64f98fa7,0x47b5481dbefa4fa1] m).toList.flatMap u64be).take 48
+    0x67332667ffc00b31,0x8eb44a8768581511,0xdb0c2e0d64f98fa7,0x47b5481dbefa4fa4] m).toList.flatMap u64be).take 48
 
 /-- HMAC (RFC 2104) over an arbitrary hash `H` with block size `blk` -/
 def hmac (H : Bytes → Bytes) (blk : Nat) (key msg : Bytes) : Bytes :=
